@@ -305,6 +305,7 @@ def run(ctx):
     counting.cnt1(ctx, lib)
     counting.cnt2(ctx, lib)
     counting.chr1(ctx, lib)
+    counting.fch1(ctx, lib)
     try:
         from . import plumbing
     except ImportError:
